@@ -20,3 +20,4 @@ PROP = {'engine': 'stack',
  'technique': 'property-based testing (rapid): generated schedules enforced by latches, history invariant effect-vs-issue plus event content '
               'equality'}
 PROP['rule'] += ' Round-4 addition: in a quarter of the cases a second internal extension registers without subscriptions and parks on its next: it receives no event and the invocations do not wait for it.'
+PROP['rule'] += " Round-10 addition: the caller's trace header also comes with a Lineage or Self field, without Sampled, in another field order, without Root, or without X-Ray syntax; the subscribers must receive it as sent."
